@@ -24,6 +24,27 @@ def custom_table(rng, n=None):
     return out
 
 
+def smooth_table(rng, n=None):
+    """A physically usable custom table for solver workloads: Mach 0 .. >= 5.5 (covers every launch speed generated),
+    neighbouring gaps within a factor 3 of each other and Cd changing by at most 0.25 per unit Mach step-wise, so the
+    piecewise parabolas stay positive and bounded (a table whose interpolant goes negative makes any solver run away;
+    that says nothing about the solver)."""
+    n = n or rng.choice([6, 10, 16, 25, 40])
+    gaps, g = [], rng.uniform(0.5, 1.5)
+    for _ in range(n - 1):
+        g = min(3.0, max(0.33, g * rng.uniform(0.6, 1.6)))
+        gaps.append(g)
+    span = rng.uniform(5.5, 7.0)
+    k = span / sum(gaps)
+    m, cd, out = 0.0, rng.uniform(0.2, 0.6), []
+    out.append([0.0, round(cd, 5)])
+    for gap in gaps:
+        m += gap * k
+        cd = min(0.95, max(0.12, cd + rng.uniform(-0.25, 0.25) * gap * k))
+        out.append([round(m, 5), round(cd, 5)])
+    return out
+
+
 def atmo(rng, vacuum_ok=False):
     k = rng.random()
     if vacuum_ok and k < 0.1:
@@ -52,7 +73,7 @@ def winds(rng, n=None, max_speed=60.0, range_ft=3000.0):
 
 def shot(rng, *, flat=False, twist=True, custom=0.15, look=True, cant=True, vacuum_ok=False,
          mv_lo=300.0, mv_hi=3500.0, wind_n=None, wind_max=60.0, range_ft=3000.0, dims=True):
-    tbl = custom_table(rng) if rng.random() < custom else rng.choice(TABLE_NAMES)
+    tbl = smooth_table(rng) if rng.random() < custom else rng.choice(TABLE_NAMES)
     bc = rng.choice([r(rng, 0.05, 0.2, 4), r(rng, 0.2, 0.7, 4), r(rng, 0.7, 1.2, 4)])
     split = min(max(1100.0, mv_lo), mv_hi)
     mv = rng.choice([r(rng, mv_lo, split, 1), r(rng, split, mv_hi, 1)])
